@@ -9,7 +9,7 @@ func init() {
 func runC09(opt *Options) int {
 	lr := &laRun{
 		Opt:  opt,
-		Pkgs: []string{"xtype", "method", "generator", "builder", "config", "."},
+		Pkgs: []string{"xtype", "method", "generator", "builder", "config", "comments", "."},
 		Kernels: []layera.Kernel{
 			{Name: "K10.sortedmembers", Pkg: "xtype", Harness: "VerifHarness_C09_SortedMembers", Unwind: 24, ReplayTries: 12},
 			{Name: "K10.unused", Pkg: "xtype", Harness: "VerifHarness_C09_Unused", Unwind: 24, ReplayTries: 12},
@@ -19,6 +19,7 @@ func runC09(opt *Options) int {
 			func() layera.Kernel { k := kernelGenerateConverters("c09"); k.Name = "K8.writefiles"; return k }(),
 			{Name: "K10.extendorder", Pkg: "config", Harness: "VerifHarness_C09_ExtendOrder", Unwind: 24, E2E: "c09", Stub: []string{"(*github.com/jmattheis/goverter/pkgload.PackageLoader).GetMatching"}},
 			{Name: "K8.outputfile", Pkg: "config", Harness: "VerifHarness_C15_OutputFile", Unwind: 64, Stub: []string{"github.com/jmattheis/goverter/method.Parse"}, E2E: "c09"},
+			{Name: "K7.filescan", Pkg: "comments", Harness: "VerifHarness_C19_ParseDocsFiles", Unwind: 64, E2E: "c09"},
 			{Name: "K10.unknownfields", Pkg: "builder", Harness: "VerifHarness_C09_UnknownFields", Unwind: 24, ReplayTries: 12},
 		},
 		Funcs:     []string{"xtype.Enum.SortedMembers", "xtype.UsageFromMap", "xtype.UsageChecker.Used/Unused", "method.AvailableContextDebug", "method.(*Index).Register/GetAll", "generator.(*generator).getGenMethods", "generator.validateMethods", "builder.(*Struct).Assign (tail: configured fields that do not exist)", "builder.(*MethodContext).DefinedFields", "config.parseConverterLine (extend, output:file arms)", "parse.File"},
